@@ -202,9 +202,21 @@ PADDED_LOCS = LOCS + ['L1 ', 'l2']
 
 def random_history(rng):
     steps = []
-    if rng.random() < 0.25:
+    mode = rng.random()
+    if mode < 0.25:
         def snap(r, _orig=random_snapshot):
             return _orig(r, NAMES + ['A', 'a '], PADDED_GROUPS, PADDED_LOCS)
+    elif mode < 0.35:
+        # a big house: snapshots of up to 40 lights whose names end in numbers
+        # of different lengths, ten and more groups
+        big_names = ['light-{}'.format(k) for k in range(1, 31)] + \
+            ['bulb-{}'.format(c) for c in 'abcdefghij']
+        big_groups = ['room {}'.format(k) for k in range(1, 13)]
+
+        def snap(r, _orig=random_snapshot):
+            out = _orig(r, big_names, big_groups, LOCS + ['L10', 'L9'])
+            r.shuffle(out)      # the network reports them in any order
+            return out
     else:
         snap = random_snapshot
     if rng.random() < 0.2:
